@@ -15,6 +15,14 @@
                                            still queued, so nothing of it can be replayed), and the second `run()` on that
                                            state raises nothing and ends `Completed` — in particular the unplug of a
                                            session that arrived in the failed period is there exactly once (not lost);
+  * `aborted_state_spec`                 — WHAT the abort leaves (`EventCore.Aborted`, Lemmas/EventCoreAbort.lean): whenever
+                                           the run with the raising scheduler raises, it is `SchedulerFailed` in period
+                                           `k`; `event_history` holds exactly the events with timestamp `≤ k`, once each,
+                                           key-sorted; the queue holds exactly the plug-ins and recomputes later than `k`
+                                           and the unplug events of the sessions connected now — INCLUDING those that
+                                           arrived in period `k` (their follow-up is already queued when the scheduler is
+                                           consulted) — and nothing with timestamp `≤ k`; the stations hold the sessions
+                                           with `arrival ≤ k < departure`;
   * `exactly_once_across_resume_json`    — the same through a JSON round trip, for every lawful scalar codec: the aborted
                                            state can be written and loaded, the decoded simulator IS the aborted one (its
                                            pending events, iteration, histories, occupancy), and `run()` on it ends
@@ -35,6 +43,7 @@
 import AcnProofs.Lemmas.ResumeJson
 import AcnProofs.Lemmas.ResumeProj
 import AcnProofs.Lemmas.EventCoreFinal
+import AcnProofs.Lemmas.EventCoreAbort
 import AcnProofs.Lemmas.RegistryJsonLawful
 
 set_option linter.unusedSectionVars false
@@ -86,6 +95,21 @@ theorem exactly_once_across_resume (cfg : Sim.Cfg K) (sched : View K → Except 
   · right
     have h4' : ObsEqR r2 r := h4
     exact ⟨h1, h2, h3, h4'.2.trans hok, completed_of_obsEq h4'.1.symm hc, h4'.1⟩
+
+/-- **aborted_state_spec** — the state the abort leaves: for every `Valid` configuration, scheduler, raising period
+    `k` and fuel, if the uninterrupted run raises nothing then the interrupted run raises nothing but `SchedulerFailed`,
+    and the state it leaves is `Aborted cfg.core k` (by `exactly_once_across_resume_json` this is also the state a JSON
+    round trip hands to the second `run()`). -/
+theorem aborted_state_spec (cfg : Sim.Cfg K) (sched : View K → Except EventCore.Err (Schedule K))
+    (hv : Valid cfg.core) (k n : Nat) (hok : (run cfg sched n (Sim.init cfg)).2 = none) :
+    let r1 := run cfg (failAt k sched) n (Sim.init cfg)
+    ∀ e, r1.2 = some e → e = EventCore.Err.schedulerFailed ∧ Aborted cfg.core k r1.1.core := by
+  intro r1 e he
+  have hp := run_failAt_proj cfg sched k n (Sim.init cfg) hok
+  have hi : (Sim.init cfg).core = EventCore.init cfg.core := rfl
+  rw [hi] at hp
+  exact run_failSched_spec hv k n 0 (EventCore.init cfg.core) (init_inv hv) (Nat.zero_le _) r1.1.core e
+    (by rw [hp]; exact Prod.ext rfl he)
 
 /-- **exactly_once_across_resume_json** — crash in period `k`, `to_json`, `from_json`, `update_scheduler`, `run()`:
     for every lawful scalar codec the aborted state can be dumped and loaded, the decoded simulator `s'` IS the aborted
@@ -238,6 +262,16 @@ example : (run exCfg (failAt 2 exSched) 8 (Sim.init exCfg)).2 = some EventCore.E
        ⟨4, .unplug, "c"⟩, ⟨4, .unplug, "b"⟩] ∧
     (run exCfg exSched 6 (run exCfg (failAt 2 exSched) 8 (Sim.init exCfg)).1).1.core.iter = 5 := by
   decide +kernel
+
+/-- `aborted_state_spec` on this instance: the queue the abort in the hand-over period 2 leaves is the queue of the
+    loop head of period 3 — `b`'s unplug event (4) is in it, `b`'s plug-in event (2) is not -/
+example : unplugEv ⟨"b", "S9", 2, 4⟩ ∈ (run exCfg (failAt 2 exSched) 8 (Sim.init exCfg)).1.core.pending ∧
+    plugEv ⟨"b", "S9", 2, 4⟩ ∉ (run exCfg (failAt 2 exSched) 8 (Sim.init exCfg)).1.core.pending := by
+  obtain ⟨_, hA⟩ := aborted_state_spec exCfg exSched exCfg_valid 2 8 (by decide +kernel) _
+    (show (run exCfg (failAt 2 exSched) 8 (Sim.init exCfg)).2 = some EventCore.Err.schedulerFailed by decide +kernel)
+  refine ⟨(hA.pend_mem _).2 (Or.inr (Or.inl ⟨⟨"b", "S9", 2, 4⟩, by decide, rfl, by decide, by decide⟩)), fun h => ?_⟩
+  have := ((hA.pend_mem _).1 h).le_ts
+  simp [plugEv] at this
 
 /-- the theorem on this instance: the second disjunct -/
 example : Completed exCfg.core (run exCfg exSched 6 (run exCfg (failAt 2 exSched) 8 (Sim.init exCfg)).1).1.core := by
